@@ -125,6 +125,37 @@ def main(rep):
             args += ["-w", r]
         mcases.append(("m%d" % m, mc.main_case(args=args, real=real, mounted=mnt, slots=[]), (list(wr), [], mnt)))
         m += 1
+    # mount points whose names hold the characters the kernel escapes in /proc/self/mounts (space, tab, newline,
+    # backslash are written \040 \011 \012 \134), and a directory whose NAME is literally `a\040b`: a root that is listed
+    # is a mount point and is not mounted again, one that is not listed is
+    odd = ["/mnt/a b", "/mnt/tab\there", "/mnt/back\\slash", "/mnt/a\\040b", "/mnt/nl\nx", "/mnt/ends ", "/mnt/\\", "/mnt/a  b"]
+    for i in range(len(odd) * (2 if rep.tier == "quick" else 6)):
+        wr = [odd[i % len(odd)]] + rng.sample(odd + ["/a"], rng.randint(0, 2))
+        mnt = ["/"] + [r for r in odd if rng.random() < 0.5]
+        if i < len(odd):
+            mnt = ["/", wr[0]]
+        real = {r: r for r in roots + odd}
+        real["."] = "/cwd"
+        args = []
+        for r in wr:
+            args += ["-w", r]
+        mcases.append(("m%d" % m, mc.main_case(args=args, real=real, mounted=mnt, slots=[]), (list(wr), [], mnt)))
+        m += 1
+    # mount tables that are not what the kernel writes (no second field, empty lines, no final newline, a backslash not
+    # followed by three octal digits, an escape at the very end): read without harm, the well-formed lines count
+    RAW = [("", []), ("\n", []), ("onlyonefield\n", []), ("dev /a type rw 0 0", ["/a"]), ("\n\ndev /a x\n\n", ["/a"]), ("dev /a\n", ["/a"]),
+           ("dev /mnt/x\\04 t\ndev /a t\n", ["/mnt/x\\04", "/a"]), ("dev /mnt/x\\ t\n", ["/mnt/x\\"]), ("dev /mnt/q\\0401 t\n", ["/mnt/q 1"]),
+           ("dev /mnt/x\\777 t\n", ["/mnt/x\\777"]), ("dev /mnt/e\\04", ["/mnt/e\\04"]), ("a b\nc d\ne f", ["b", "d", "f"]), (" /a t\n", ["/a"]),
+           ("dev  /a t\n", [""]), ("dev /d\\134\\134 t\n", ["/d\\\\"])]
+    for text, mpoints in RAW:
+        wr = [r for r in mpoints if r.startswith("/")][:2] + ["/a", "/mnt/x"]
+        real = {r: r for r in roots + wr}
+        real["."] = "/cwd"
+        args = []
+        for r in wr:
+            args += ["-w", r]
+        mcases.append(("m%d" % m, mc.main_case(args=args, real=real, mounted=[], mounts_raw=text, slots=[]), (list(wr), [], mpoints)))
+        m += 1
     # malformed command lines: nothing may be mounted or watched
     for bad in (["-w"], ["-x", "/a"], ["-c", "a", "-c", "b"], ["-w", "/a", "w"], ["-d", "x", "-d", "y", "-w", "/a"]):
         mcases.append(("m%d" % m, mc.main_case(args=bad, real={r: r for r in roots}, mounted=[], slots=[]), ("malformed", bad)))
@@ -226,7 +257,9 @@ def main(rep):
     rep.cov["rule"] = ("every argv up to length %d over {-c,-d,-w,-e,-h,-v,-x,--,x,'',-wx} through the real parse_params, judged by a reference parser written from the "
                        "documented grammar; all pairs of 11 canonical paths through get_common_parent_path_length against 'deepest common directory'; the real main() on every "
                        "sequence of 1-3 write roots from {/, /a, /a/b, /a/c, /d} (equal, nested, disjoint, the root directory; about a third spelled non-canonically, e.g. '/a/.', '/x/../a') with random mount tables (some longer than a page, read in whole records as from /proc) and exec roots: "
-                       "a directory is bind-mounted exactly when not yet a mount point, every root marked, offset of relative paths = deepest common directory; malformed "
+                       "a directory is bind-mounted exactly when not yet a mount point, every root marked, offset of relative paths = deepest common directory; mount points whose names hold the characters the kernel escapes in /proc/self/mounts "
+                       "(space, tab, newline, backslash: the table is written the kernel's way by the harness, and by MountParse.render_mounts on the model side) and a directory literally named a\\\\040b; "
+                       "15 mount tables that are not what the kernel writes (one field, empty lines, no final newline, truncated or out-of-range escapes); malformed "
                        "command lines rejected before anything is mounted or watched" % maxlen)
     rep.cov["samples"] = [pcases[100][1], mcases[10][1].split("\n")[:3]]
     vlib.conclude_proofs(rep, found)
